@@ -331,7 +331,7 @@ impl Check for C13Check {
         CheckInfo {
             id: "C13",
             level: "fault_enumeration",
-            rule: "case = one program (copy-heavy 50%, storage idioms 30%, control flow 10%, stack-aware 10%, first three cases fixed small corpus contracts) x {strict, permissive} x poll intervals from {1,2,3,7,100,1000} x API shape (analyze / staged / type-checker phases called one by one); for each: a baseline with a never-stopping counting watchdog, an unmonitored run, and one cancelled run per poll index k (every k in 0..=T when T <= 400, else 200 stratified k: ends, loop/stage boundaries, uniform rest); every fifth k is delivered through the real FlagWatchdog with a simulated supervisor. evaluations = simulated runs; non-trivial = the injected stop was actually observed by the analysis; distinct = distinct (program, poll_every, mode, k), counted with a hash set",
+            rule: "case = one program (copy-heavy 42%, storage idioms 25%, value-growth chains 17%, control flow 8%, stack-aware 8%, first three cases fixed small corpus contracts) x {strict, permissive} x poll intervals from {1,2,3,7,100,1000} x API shape (analyze / staged / type-checker phases called one by one); for each: a baseline with a never-stopping counting watchdog, an unmonitored run, and one cancelled run per poll index k (every k in 0..=T when T <= 400, else 200 stratified k: ends, loop/stage boundaries, uniform rest); every fifth k is delivered through the real FlagWatchdog with a simulated supervisor that raises the flag once; a FlagWatchdog built with polling_every(p) must answer p from poll_every(). evaluations = simulated runs; non-trivial = the injected stop was actually observed by the analysis; distinct = distinct (program, poll_every, mode, k), counted with a hash set",
             assumptions: &[
                 "the supervisor/analysis interaction is one Relaxed AtomicBool load per poll, so the set of distinguishable interleavings is exactly 'first poll index that reads true', which is what is enumerated",
                 "loop iterations are counted by tick markers placed next to (not inside) the poll conditions (cfg hook H5)",
